@@ -69,7 +69,7 @@ func errStr(err error) string {
 
 // entryByName resolves e<N> to the entry declared under that name.
 func (w *World) entryByName(n string) ipfslog.Entry {
-	i := atoi(strings.TrimSuffix(strings.TrimPrefix(n, "e"), "!"))
+	i := atoi(strings.TrimSuffix(strings.TrimSuffix(strings.TrimPrefix(n, "e"), "!"), "~"))
 	if i < 1 || i > len(w.entries) {
 		return nil
 	}
